@@ -353,7 +353,7 @@ impl Lease for TtlLease {
 
     /// Reload lease state from snapshot.
     ///
-    /// Filters out already-expired keys during restoration.
+    /// Already-expired keys are restored too, so that the next cleanup removes their data.
     ///
     /// # Performance
     ///
@@ -370,18 +370,16 @@ impl Lease for TtlLease {
             ))
         })?;
 
-        let now = SystemTime::now();
-
         // Clear existing data
         self.key_to_expiry.clear();
         self.apply_counter.store(0, Ordering::Relaxed);
 
-        // Rebuild single index, skipping expired keys
+        // Rebuild the index. Entries that expired while the node was down are kept: their
+        // data is still in the state machine, and only an entry in this table makes the next
+        // cleanup run delete it. Dropping them here left such keys readable forever.
         for (key, expire_at) in snapshot.key_to_expiry {
-            if expire_at > now {
-                let key_bytes = Bytes::from(key);
-                self.key_to_expiry.insert(key_bytes, expire_at);
-            }
+            let key_bytes = Bytes::from(key);
+            self.key_to_expiry.insert(key_bytes, expire_at);
         }
 
         // Update has_keys flag
